@@ -284,9 +284,20 @@ def mutants(tg, parent, rng, tags=('C01', 'C02', 'C05', 'struct'), horizon_env=N
             ovd = {'height': d, 'cb_height': d, 'target': b'\xff' * 32}
             add(lab + '+any-target', 'C05', [], ov=ovd)
             add(lab + '+huge-reward', 'C02', [], ov=ovd, reward=10 ** 15)
+            # the same without any stored parent (previous id all zero / unknown)
+            for pz, pl in ((b'\x00' * 32, 'zero-parent'), (b'\x5a' * 32, 'unknown-parent')):
+                ovz = dict(ovd, prev=pz)
+                add(lab + '+' + pl, 'C05', [], ov=ovz)
+                add(lab + '+' + pl + '+huge-reward', 'C02', [], ov=ovz, reward=10 ** 15)
             if avail:
                 wrong_ = [pk for pk in keys.pks if pk != avail[0][1][1]][0]
                 add(lab + '+signed-by-other-key', 'C01', [spend([avail[0]], sign_with={avail[0][0]: wrong_})], ov=ovd)
+    if height >= 1:
+        # a second "genesis": height 0, no parent, offered to a chain that already has one -- with an outsized reward
+        for tag_ in ('C02', 'C05'):
+            add('genesis-shaped-block-on-existing-chain', tag_, [],
+                ov={'height': 0, 'cb_height': 0, 'evidence_height': 0, 'prev': b'\x00' * 32, 'target': parent.chain()[0].view.target},
+                reward=2_099_999_986_350_000)
     if height > 2:
         # a block that reports an EARLIER height consistently (summary, reward data, evidence), without claiming a reward /
         # claiming that height's subsidy
